@@ -355,6 +355,13 @@ class Flatten2Reshape(RewriteRuleClassBase):
         # Verify if it is possible to apply rule.
         if np.count_nonzero(self._new_shape == -1) > 1:
             return check_result.fail("Impossible to compute new shape.")
+        # In a Reshape shape a literal 0 means "copy the input dimension": a statically
+        # known zero-size dimension cannot be expressed that way.
+        for known_shape in (input_shape, context.output_values[0].shape):
+            if known_shape is not None and any(
+                isinstance(dim, int) and dim == 0 for dim in known_shape
+            ):
+                return check_result.fail("Zero-size dimension.")
         return check_result
 
 
